@@ -1,6 +1,7 @@
 #!/usr/bin/env python3
 """Applies every confirmed seeded defect under /verif/seeded/<name>/patch.diff to /repo, runs the quick tier
 of the properties it breaks, reverts, and records the outcome in meta.json and seeded/RESULTS.md."""
+SEED_BASE = "5f2f6bf"
 import json, os, subprocess, sys, glob, re
 VERIF = os.path.dirname(os.path.dirname(os.path.abspath(__file__)))
 tier = sys.argv[1] if len(sys.argv) > 1 else "quick"
@@ -22,7 +23,16 @@ for d in sorted(glob.glob(os.path.join(VERIF, "seeded", "*", ""))):
     subprocess.run(["git", "-C", "/repo", "worktree", "remove", "--force", wt], capture_output=True)
     subprocess.run(["git", "-C", "/repo", "worktree", "prune"])
     subprocess.run(["git", "-C", "/repo", "worktree", "add", "-q", "--detach", wt, "HEAD"], check=True)
-    subprocess.run(["git", "-C", wt, "apply", os.path.join(d, "patch.diff")], check=True)
+    # a patch written before a later repair of /repo touched the same lines is applied by a three-way merge, or,
+    # failing that, to the tree it was written against (SEED_BASE: the last commit before repairs D16 / D17)
+    patch = os.path.join(d, "patch.diff")
+    if subprocess.run(["git", "-C", wt, "apply", "--check", patch], capture_output=True).returncode == 0:
+        subprocess.run(["git", "-C", wt, "apply", patch], check=True)
+    elif subprocess.run(["git", "-C", wt, "apply", "-3", patch], capture_output=True).returncode == 0:
+        subprocess.run(["git", "-C", wt, "reset", "-q"], check=True)
+    else:
+        subprocess.run(["git", "-C", wt, "checkout", "-q", "--detach", "-f", SEED_BASE], check=True)
+        subprocess.run(["git", "-C", wt, "apply", patch], check=True)
     res = {}
     env = dict(os.environ, VERIF_REPO=wt)
     try:
